@@ -25,7 +25,7 @@ use serde::{Deserialize, Serialize};
 #[derive(Clone, Debug, Serialize, Deserialize, PartialEq, Eq, Default)]
 pub struct DiagSpec {
     /// invalid_char | spliced_line | torn_line | cut_in_last_statement | undefined_label |
-    /// duplicate_label | random_corruption
+    /// duplicate_label | random_corruption | name_misused
     pub kind: String,
     /// 1-based lines a correct diagnostic may cite (empty = not known to the generator)
     #[serde(default)]
@@ -129,7 +129,32 @@ fn make_case_once(seed: u64, run: u64, r: &mut Rng) -> Option<Case> {
     let start_line = lines.iter().position(|l| code_part(l).trim_start().starts_with("start:")).unwrap_or(0);
     let mut spec = DiagSpec::default();
     let kind = r.below(100);
-    if kind < 28 {
+    if kind < 7 {
+        // a well-formed statement that misuses a name: call of a label, jump to a procedure or to
+        // data, call of nothing, a macro with too few arguments, a macro that does not exist, a code
+        // label where data is wanted. The offending token is in the statement; the program must
+        // not start
+        // (data comes first in a file, procedures and macros directly in front of the entry point)
+        lines.insert(0, "zz_d: db 5".to_owned());
+        let start_line = start_line + 1;
+        let defs = ["def zz_pr { inc ax }", "macro zz_m(a,b) -> add a, b <-"];
+        for (k, d) in defs.iter().enumerate() {
+            lines.insert(start_line + k, (*d).to_owned());
+        }
+        let start_line = start_line + defs.len();
+        lines.insert(start_line + 1, "zz_lab: inc di".to_owned());
+        let at = r.urange(start_line + 2, lines.len());
+        let indent = if r.chance(50) { " ".repeat(r.urange(1, 8)) } else { String::new() };
+        let body = *r.pick(&["call zz_lab", "jmp zz_pr", "je zz_pr", "call zz_nothing", "zz_m(ax)", "zz_nomacro(ax)", "jmp zz_d", "mov al, byte zz_lab", "call zz_d", "loop zz_pr"]);
+        lines.insert(at, format!("{}{}", indent, body));
+        if at + 1 == lines.len() && r.chance(50) {
+            final_newline = false;
+        }
+        spec.kind = "name_misused".to_owned();
+        spec.lines = vec![at + 1];
+        spec.col = Some((indent.len(), indent.len() + body.len()));
+        spec.target = Some(at);
+    } else if kind < 28 {
         // a foreign, wrong statement spliced in somewhere after the entry point
         let at = r.urange(start_line + 1, lines.len());
         let stmt = *r.pick(&FOREIGN);
